@@ -356,8 +356,8 @@ pub fn run(ctx: &Ctx) -> Report {
     rep.exhaustive = !ctx.miri;
 
     // ---- thorough: random conversations with random faults; a cut between fragments of a 16 MiB command
-    if ctx.thorough && !ctx.miri {
-        let n = ctx.n(0, 200_000);
+    if !ctx.miri {
+        let n = if ctx.thorough { ctx.n(0, 200_000) } else { 300 };
         let r = par_cases(ctx, "C19", "random", n, |rng, i, rep| {
             let (mut case, _) = rich_case(rng, 8, false);
             let obs0 = run_case(&case);
@@ -377,7 +377,8 @@ pub fn run(ctx: &Ctx) -> Report {
             check_fault_run("random", &obs, what, rep, &d);
         });
         rep.merge(r);
-        let ks: Vec<i64> = vec![-1, 0, 1, 4, 5, 100];
+        // quick: the stream ends exactly between two fragments; thorough: around and inside the second one
+        let ks: Vec<i64> = if ctx.thorough { vec![-1, 0, 1, 4, 5, 100] } else { vec![0, 4] };
         let r = par_cases(ctx, "C19", "fragment-cut", ks.len() as u64, |_rng, i, rep| {
             let mut text = Vec::new();
             // the second fragment carries 501 payload bytes, so every offset below lies inside the command
